@@ -429,10 +429,13 @@ def run_mux(ast, trace, taps=False, split_at=None, mutate_emitted=False):
     return res
 
 
-def run_mux_twice(ast, trace, runs=2):
+def run_mux_twice(ast, trace, runs=2, reapply=False):
     """ONE pipeline object (operators, store manager, piped observable, error router built once) subscribed
     `runs` times in sequence to a cold source that replays the trace; every subscription (and every subscription
-    of the dead-letter observable) must behave like the first.  Returns [{'steps', 'final'}] per run."""
+    of the dead-letter observable) must behave like the first.  Returns [{'steps', 'final'}] per run.
+    reapply=True: the operator VALUES are built once (rs.ops.tee_map(...), rs.ops.scan(...), ...) and applied to a
+    new source and a new store for every run - operators are functions from observable to observable and a stored
+    operator value can be used in more than one pipeline."""
     box = {'cur': []}
     ctx = Ctx(lambda x: box['cur'].append(x), defer_dead=True)
     sink = io.StringIO()
@@ -472,6 +475,9 @@ def run_mux_twice(ast, trace, runs=2):
 
         piped = rx.create(source).pipe(rs.cast_as_mux_observable(), rs.state.with_store(store, rx.pipe(*ops)))
         for _ in range(runs):
+            if reapply:
+                store = rs.state.StoreManager(store_factory=rs.state.MemoryStore)
+                piped = rx.create(source).pipe(rs.cast_as_mux_observable(), rs.state.with_store(store, rx.pipe(*ops)))
             box['cur'] = []
             stepbox['steps'] = []
             d = ctx.subscribe_dead()
